@@ -99,8 +99,8 @@ def same(a, b) -> bool:
     if type(a) is not type(b):
         return False
     if isinstance(a, dict):
-        return list(a.keys()) == list(b.keys()) and all(same(a[k], b[k]) for k in a) \
-            if not isinstance(a, (set, frozenset)) else a == b
+        # keys with their classes too: {1: x} and {True: x} are == but not the same value
+        return len(a) == len(b) and all(same(ka, kb) and same(a[ka], b[kb]) for ka, kb in zip(a.keys(), b.keys()))
     if isinstance(a, (list, tuple)) or type(a).__name__ == "deque":
         return len(a) == len(b) and all(same(x, y) for x, y in zip(a, b))
     if isinstance(a, (set, frozenset)):
